@@ -32,6 +32,7 @@ type c02Case struct {
 	LitQ    string    `json:"lit_quoted"`
 	Want    string    `json:"want"` // "eq", "ne", "err"
 	Style   int       `json:"style"`
+	Layout  uint64    `json:"layout,omitempty"` // != 0: free layout and escape choices drawn from bx.Seeded{Layout}
 }
 
 const (
@@ -66,6 +67,12 @@ func c02Check(t failer, test string, c *c02Case) {
 	lit := string(c.Lit)
 	rend := bx.NewRenderer(bx.Zero{})
 	rend.NoLayout = true
+	if c.Layout != 0 {
+		// every way of writing the literal in the chosen style: escapes of all kinds in double quotes, carriage
+		// returns (discarded) inside backticks, optional blanks
+		rend = bx.NewRenderer(&bx.Seeded{State: c.Layout})
+		rend.MaxParen = 0
+	}
 	rend.LitStyle = c.Style
 	for _, op := range []bx.Op{bx.OpEq, bx.OpNe} {
 		text, _ := rend.Render(&bx.Match{Sel: bx.Sel{Parts: []string{"F"}}, Op: op, Lit: lit})
@@ -416,8 +423,11 @@ func c02Literals(x *uni.Node) [][3]string {
 
 func c02Run(t failer, r interface {
 	Case(string, bool, interface{}, ...string)
-}, test string, x *uni.Node, wrapper int, lit [3]string, style int) {
+}, test string, x *uni.Node, wrapper int, lit [3]string, style int, layout ...uint64) {
 	c := &c02Case{Kind: x.T.K, Named: x.T.Named, Wrapper: wrapper, X: x, Lit: []byte(lit[0]), LitQ: strconv.Quote(lit[0]), Want: lit[1], Style: style}
+	if len(layout) > 0 {
+		c.Layout = layout[0]
+	}
 	c02Check(t, test, c)
 	desc := fmt.Sprintf("%s|%v|%d|%s|%s", x.T.K, x.T.Named, wrapper, x.String(), lit[0])
 	r.Case(desc, lit[2] == "nt", map[string]string{"x": x.String(), "literal": strconv.QuoteToASCII(lit[0]), "want": lit[1], "wrapper": strconv.Itoa(wrapper)},
@@ -434,6 +444,19 @@ func TestC02_Random(t *testing.T) {
 		lit := lits[rapid.IntRange(0, len(lits)-1).Draw(t, "lit")]
 		wrapper := rapid.IntRange(0, c02Wrappers-1).Draw(t, "wrapper")
 		style := rapid.IntRange(0, 2).Draw(t, "style")
+		if k.IsStringLike() && rapid.Bool().Draw(t, "stringPool") {
+			// strings from the whole pool (line breaks, carriage returns, quotes, other scripts, invalid bytes), not only the kind's own boundaries
+			x = &uni.Node{T: ty, S: uni.StringPool[rapid.IntRange(0, len(uni.StringPool)-1).Draw(t, "poolString")]}
+			if rapid.IntRange(0, 3).Draw(t, "multiline") == 0 {
+				x.S = strings.ReplaceAll(x.S, " ", "\r\n") + "\r\nline two"
+			}
+			lits = c02StringLiterals(x)
+			lit = lits[rapid.IntRange(0, len(lits)-1).Draw(t, "lit2")]
+		}
+		if rapid.Bool().Draw(t, "freeLayout") {
+			c02Run(t, r, "TestC02_Random", x, wrapper, lit, style, rapid.Uint64Min(1).Draw(t, "layout"))
+			return
+		}
 		c02Run(t, r, "TestC02_Random", x, wrapper, lit, style)
 	})
 }
